@@ -167,6 +167,17 @@ class Executor:
       if isinstance(vals,Exc): yield st1,vals
       else: yield st1,Tup(vals)
 
+  def ev_Set(s,e,st):
+    # { a, b, *S } : set display, starred elements are (symbolic) sets
+    from . import symcoll
+    for st1,vals in s.evs([x.value if isinstance(x,ast.Starred) else x for x in e.elts],st):
+      if isinstance(vals,Exc): yield st1,vals; continue
+      arr=symcoll.EMPTY; et=None
+      for x,v in zip(e.elts,vals):
+        if isinstance(x,ast.Starred):
+          a2,t2=symcoll.setval(v,st1); arr=z3.SetUnion(arr,a2); et=et or t2
+        else: arr=z3.Store(arr,symcoll.to_obj(v,st1),True)
+      st2=st1.fork(); yield st2,st2.alloc('set',{'arr':arr,'elem':et or symcoll.ObjK()})
   def ev_Dict(s,e,st):
     from . import symcoll
     if e.keys: raise Unsupported(f"non-empty dict literal at line {e.lineno}")
@@ -931,6 +942,11 @@ class Executor:
     elif isinstance(t,(ast.Tuple,ast.List)):
       if isinstance(v,Tup): items=v.items
       elif isinstance(v,Ref) and (v.id,'items') in st.heap: items=st.heap[(v.id,'items')]
+      elif isinstance(v,Opq) and len(t.elts)==2 and z3.is_expr(v.t) and str(v.t.sort())=='Obj':
+        # element of a collection of pairs whose element type is not declared (a set filled with `add((a, b))`): that the element is a
+        # pair is the type invariant of the collection (assumed, like the declared element types of the contract views)
+        from . import symcoll
+        st=st.fork(symcoll.Obj.is_pair(v.t)); items=[Opq(symcoll.Obj.fst(v.t),'obj'),Opq(symcoll.Obj.snd(v.t),'obj')]
       else: raise Unsupported("unpacking of non-tuple")
       if len(items)!=len(t.elts): yield st,('raise',Exc('ValueError','unpack')); return
       def go(i,st):
@@ -1094,9 +1110,22 @@ class Executor:
     fn=c.fn_ast(s.reg)
     # string keys name a loop by its header: 'for <target> in <iter>' / 'while <test>' must contain the key (robust against
     # reordering independent loops); integer keys are ordinals in source order
-    hdr=(f"for {ast.unparse(n.target)} in {ast.unparse(n.iter)}" if isinstance(n,ast.For) else f"while {ast.unparse(n.test)}")
-    hits=[k for k in c.loops if isinstance(k,str) and k in hdr]
+    def header(x):
+      if isinstance(x,ast.While): return f"while {ast.unparse(x.test)}"
+      t=ast.unparse(x.target)
+      if isinstance(x.target,ast.Tuple) and t.startswith('(') and t.endswith(')'): t=t[1:-1]       # `for a, b in ...` as written
+      return f"for {t} in {ast.unparse(x.iter)}"
+    hdr=header(n)
+    hits=[k for k in c.loops if isinstance(k,str) and '#' not in k and k in hdr]
     if hits: return c.loops[max(hits,key=len)]
+    # 'header text#n': the n-th loop (source order) whose header contains the text - for functions that repeat a loop header
+    for k in c.loops:
+      if isinstance(k,str) and '#' in k:
+        txt,num=k.rsplit('#',1)
+        if txt not in hdr: continue
+        same=[x for x in ast.walk(fn) if isinstance(x,(ast.For,ast.While)) and txt in header(x)]
+        same.sort(key=lambda x:(x.lineno,x.col_offset))
+        if int(num)<=len(same) and same[int(num)-1].lineno==n.lineno and same[int(num)-1].col_offset==n.col_offset: return c.loops[k]
     loops=[x for x in ast.walk(fn) if isinstance(x,(ast.For,ast.While))]
     loops.sort(key=lambda x:(x.lineno,x.col_offset))
     for i,x in enumerate(loops):
@@ -1134,6 +1163,13 @@ class Executor:
       st.vcs.append((kind,f"loop@{n.lineno}::{k}",list(st.pc),g,st))
 
   def while_inv(s,n,spec,st):
+    prev_pre=st.ghost.get('__pre__')
+    st=st.fork(); st.ghost['__pre__']=dict(st.heap)
+    def leave(x):
+      x=x.fork()
+      if prev_pre is None: x.ghost.pop('__pre__',None)
+      else: x.ghost['__pre__']=prev_pre
+      return x
     s.inv_vc('inv-init',n,spec,st,None)
     st1=st.fork()
     s.havoc_locals(st1,s.assigned_names(n.body))
@@ -1154,6 +1190,7 @@ class Executor:
         for st4,side in s.branch(st3,t):
           if not side:
             for cl in spec.lemmas: st4.pc.append(s.spec_bool(cl,st4.env,st4,st4.heap,st4.entry_heap,st4.entry_env))
+            st4=leave(st4)
             if n.orelse: yield from s.block(n.orelse,st4)
             else: yield st4,None
             continue
@@ -1163,7 +1200,7 @@ class Executor:
               if m0 is not None:
                 m1=s.spec_int(spec.decreases,st5)
                 st5.vcs.append(('decreases',f"loop@{n.lineno}",list(st5.pc),z3.And(m0>=0,m1<m0),st5))
-            elif ctl[0]=='break': yield st5,None
+            elif ctl[0]=='break': yield leave(st5),None
             else: yield st5,ctl
 
   def spec_int(s,src,st):
@@ -1211,8 +1248,9 @@ def resolve_locs(loc,env,heap):
   for p in parts[1:-1]: cur=step(cur,p)
   last=parts[-1]
   tgt=heap.get((cur.id,last))
-  if isinstance(tgt,Ref) and tgt.cls=='set' and (tgt.id,'arr') in heap: return {(tgt.id,'arr')}
-  if isinstance(tgt,Ref) and tgt.cls=='dict' and (tgt.id,'dom') in heap: return {(tgt.id,'dom'),(tgt.id,'val')}
+  # a named collection field may be mutated in place or re-bound to a new collection
+  if isinstance(tgt,Ref) and tgt.cls=='set' and (tgt.id,'arr') in heap: return {(tgt.id,'arr'),(cur.id,last)}
+  if isinstance(tgt,Ref) and tgt.cls=='dict' and (tgt.id,'dom') in heap: return {(tgt.id,'dom'),(tgt.id,'val'),(cur.id,last)}
   return {(cur.id,last)}
 
 def havoc_keys(keys,st,tag):
@@ -1584,7 +1622,14 @@ def _form_isset(s,e,st):
   for st1,o in s.ev(a.value,st):
     yield st,B(isinstance(o,Ref) and (o.id,a.attr) in st.heap)
 
-SPEC_FORMS={'old':_form_old,'isset':_form_isset}
+def _form_pre(s,e,st):
+  # pre(expr): evaluate in the heap as it was when the innermost enclosing loop under contract was entered (names keep their current meaning)
+  snap=st.ghost.get('__pre__')
+  if snap is None: raise ToolError("pre(...) outside a loop invariant")
+  st2=st.fork(); st2.heap=snap
+  yield from ((st,v) for _,v in s.ev(e.args[0],st2))
+
+SPEC_FORMS={'old':_form_old,'isset':_form_isset,'pre':_form_pre}
 SPEC_MACROS={}     # name -> (params, expr ast): expanded by substitution
 
 def _form_macro(name):
